@@ -33,4 +33,10 @@ HasEv(out, P(_)) == \E i \in 1..Len(out) : P(out[i])
 NodeAuth == {MCfg.apps[a].id : a \in {x \in MApps : MCfg.apps[x].auth}}
 NodeAcct == {MCfg.apps[a].id : a \in {x \in MApps : MCfg.apps[x].acct}}
 IsFeed(st) == st.act.a = "feed"
+\* bytes that do not (yet) form a message: a fragment of a message, or undecodable bytes
+IsRx(st) == st.act.a = "rx"
+\* monitors see a message delivered in several network reads as "rx" steps followed by a feed of the message
+NormAct(a) == IF a.a = "frag" THEN (IF a.i = a.n THEN [a |-> "feed", c |-> a.c, ms |-> <<a.m>>] ELSE [a |-> "rx", c |-> a.c])
+              ELSE IF a.a = "garbage" THEN [a |-> "rx", c |-> a.c] ELSE a
+Norm(st) == [act |-> NormAct(st.act), out |-> st.out, snap |-> st.snap]
 =============================================================================
